@@ -134,7 +134,7 @@ func splitFields(s string) []string {
 
 func contractKind(kind string) bool {
 	switch {
-	case kind == "ensures", kind == "frame", kind == "ensures-on-panic", kind == "lemma", kind == "sweep", kind == "nopanic":
+	case kind == "ensures", kind == "frame", kind == "ensures-on-panic", kind == "lemma", kind == "sweep", kind == "nopanic", kind == "keeps", kind == "keeps-on-panic":
 		return true
 	case strings.HasPrefix(kind, "loop"), strings.HasPrefix(kind, "assert-at"):
 		return true
@@ -160,6 +160,15 @@ func runPropertyFiltered(eng *Engine, prop, tier string, seed int, loadSecs floa
 	if v := os.Getenv("GOVC_BUDGET_MS"); v != "" {
 		if n, err := strconv.Atoi(v); err == nil {
 			budget = n
+		}
+	}
+	// development aid: GOVC_ONLY=suffix restricts the run to functions whose name ends with it
+	if sfx := os.Getenv("GOVC_ONLY"); sfx != "" && only == nil {
+		only = map[string]bool{}
+		for n := range eng.byName {
+			if strings.HasSuffix(n, sfx) {
+				only[n] = true
+			}
 		}
 	}
 	t0 := time.Now()
@@ -192,11 +201,11 @@ func runPropertyFiltered(eng *Engine, prop, tier string, seed int, loadSecs floa
 			if done[shortFn(ent.Fn)] {
 				continue
 			}
-			con := eng.conOf[ent.Fn]
-			if con == nil {
-				con = eng.sweepContract(ent)
+			if only != nil && !only[ent.Fn.String()] {
+				continue
 			}
-			if con == nil || con.NoSweep {
+			con := eng.mergedSweepContract(ent)
+			if con == nil {
 				continue
 			}
 			fr := eng.genFunc(ent.Fn, con)
@@ -212,6 +221,38 @@ func runPropertyFiltered(eng *Engine, prop, tier string, seed int, loadSecs floa
 		}
 		run.Assumptions[fmt.Sprintf("sweep: %d builtin table entries; precondition of each = arity from its registered Formals (what bind guarantees), non-nil cells, a pushed frame", len(ents))] = true
 	}
+	// C09: every builtin table entry keeps sealed (parsed) nodes: the LBuiltin
+	// type contract's `keeps` is proved here for the in-repo builtins
+	if prop == "C09" {
+		if tc := eng.cs.Types[repoPrefix+"/lisp::LBuiltin"]; tc != nil && len(tc.Keeps) > 0 {
+			ents := eng.collectBuiltins()
+			nz := 0
+			for _, ent := range ents {
+				if only != nil && !only[ent.Fn.String()] {
+					continue
+				}
+				con := eng.mergedSweepContract(ent)
+				if con == nil {
+					continue
+				}
+				withKeeps := *con
+				withKeeps.Keeps = append(append([]string{}, con.Keeps...), tc.Keeps...)
+				fr := eng.genFunc(ent.Fn, &withKeeps)
+				k := 0
+				for _, o := range fr.Obls {
+					if strings.Contains(o.Kind, "keeps") {
+						obls = append(obls, o)
+						k++
+					}
+				}
+				if k > 0 {
+					nz++
+					run.Funcs = append(run.Funcs, shortFn(ent.Fn)+" [keeps]")
+				}
+			}
+			run.Assumptions[fmt.Sprintf("C09 keeps sweep: %d builtin table entries checked against the LBuiltin type contract's `keeps LVal.sealed`; %d write an LVal field or cell at all (the others generate no obligation)", len(ents), nz)] = true
+		}
+	}
 	// lemmas
 	for _, lm := range eng.cs.Lemmas {
 		if hasString(lm.Props, prop) {
@@ -220,7 +261,11 @@ func runPropertyFiltered(eng *Engine, prop, tier string, seed int, loadSecs floa
 			}
 		}
 	}
-	run.EngErrors = append(run.EngErrors, eng.errors...)
+	for _, e := range eng.errors {
+		if ps := eng.errProps[e]; ps == nil || hasString(ps, prop) {
+			run.EngErrors = append(run.EngErrors, e)
+		}
+	}
 	run.EngErrors = uniq(run.EngErrors)
 	run.GenSecs = time.Since(t0).Seconds()
 	t1 := time.Now()
@@ -234,7 +279,13 @@ func runPropertyFiltered(eng *Engine, prop, tier string, seed int, loadSecs floa
 			return true
 		}
 		if contractKind(o.Kind) {
-			if i := strings.LastIndex(o.Name, "#"); i > 0 && locked[o.Name[:i]] {
+			// a NEW instance of a clause all of whose instances were locked
+			// (e.g. a new call site of an assert-at callee) is covered by the clause
+			base := o.Name
+			if i := strings.LastIndex(o.Name, "#"); i > 0 {
+				base = o.Name[:i]
+			}
+			if locked["CLAUSE:"+base] {
 				return true
 			}
 		}
@@ -250,10 +301,18 @@ func runPropertyFiltered(eng *Engine, prop, tier string, seed int, loadSecs floa
 				lockedFuncs[o.Func] = true
 			}
 		}
+		// known findings are re-decided on every run (they print KNOWN-FINDING
+		// while they still fail, and a note when they stop failing)
+		openNames := map[string]bool{}
+		for _, f := range readFindings() {
+			if f.Kind == "open" && f.Prop == prop {
+				openNames[f.Obligation] = true
+			}
+		}
 		var keep []*Obligation
 		skipped := 0
 		for _, o := range obls {
-			if isLocked(o) || (o.Cover && lockedFuncs[o.Func]) {
+			if isLocked(o) || openNames[o.Name] || (o.Cover && lockedFuncs[o.Func]) {
 				keep = append(keep, o)
 			} else {
 				skipped++
@@ -268,6 +327,13 @@ func runPropertyFiltered(eng *Engine, prop, tier string, seed int, loadSecs floa
 				o.Budget = 3000 // unclaimed obligations are only attempted
 			}
 		}
+	}
+	if os.Getenv("GOVC_NOSOLVE") != "" {
+		// generation only (lock --markers): report every obligation as skipped
+		for _, o := range obls {
+			run.Items = append(run.Items, &Item{Name: o.Name, Kind: o.Kind, Func: o.Func, Status: "skipped", contract: contractKind(o.Kind)})
+		}
+		return run
 	}
 	results := solveAll(obls, filepath.Join(verifDir, "out", prop), budget, seed, 16)
 	// retry locked obligations that timed out once with a longer budget
@@ -376,6 +442,7 @@ func uniq(xs []string) []string {
 
 var trustedBase = []string{
 	"go/ssa + go/types (x/tools v0.50.0, go1.26.8) as the meaning of the Go source; GOARCH=amd64 integer widths",
+	"slices hold at most 2^48 elements (the Go runtime's maxAlloc on linux/amd64); an append that would exceed it is not modelled (the runtime panics with out-of-memory first)",
 	"govc VC generator (/verif/tool) and its memory model (DESIGN §2.3)",
 	"SMT solvers z3 5.1.0, z3 4.8.12, cvc5 1.0.3 (first definitive answer wins)",
 	"assumed stdlib contracts listed under assumptions (DESIGN §3(3))",
@@ -449,7 +516,7 @@ func report(run *CheckRun, wall float64, selfOK bool, selfNotes []string) int {
 		}
 		if f, ok := open[it.Name]; ok {
 			if it.Status != "discharged" {
-				known = append(known, fmt.Sprintf("KNOWN-FINDING: property=%s %s", run.Prop, f.Text))
+				known = append(known, "KNOWN-FINDING: "+f.Text)
 			} else {
 				fmt.Printf("note: known finding %q now discharges (finding no longer reproduces)\n", it.Name)
 			}
@@ -469,7 +536,7 @@ func report(run *CheckRun, wall float64, selfOK bool, selfNotes []string) int {
 	}
 	// locked obligations that were not generated (detached contract)
 	for _, n := range lock[run.Prop] {
-		if generated[n] {
+		if generated[n] || strings.HasPrefix(n, "CLAUSE:") {
 			continue
 		}
 		if _, isKnown := open[n]; isKnown {
@@ -497,6 +564,11 @@ func report(run *CheckRun, wall float64, selfOK bool, selfNotes []string) int {
 			violations = append(violations, it)
 		}
 	}
+	// a contract that cannot be evaluated against the code is a detached contract
+	for _, e := range run.EngErrors {
+		claimed++
+		violations = append(violations, &Item{Name: run.Prop + "/contract-error/" + sanitize(e), Status: "failed", Kind: "contract-error", Locked: true, Detail: "contract error (the contract no longer attaches to the code): " + e})
+	}
 	if !selfOK {
 		violations = append(violations, &Item{Name: run.Prop + "/selftest", Status: "failed", Kind: "selftest", Detail: "must-fail corpus: " + strings.Join(selfNotes, "; ")})
 	}
@@ -518,10 +590,7 @@ func report(run *CheckRun, wall float64, selfOK bool, selfNotes []string) int {
 	for _, it := range undecidedNew {
 		und = append(und, map[string]any{"obligation": it.Name, "status": it.Status, "detail": it.Detail, "source": it.Pos})
 	}
-	assumptions := sortedKeys(run.Assumptions)
-	for _, e := range run.EngErrors {
-		assumptions = append(assumptions, "contract error: "+e)
-	}
+	assumptions := append([]string{}, sortedKeys(run.Assumptions)...)
 	assumptions = append(assumptions, propertyAssumptions[run.Prop]...)
 	ev := map[string]any{
 		"property_id": run.Prop,
@@ -632,6 +701,7 @@ func cmdLock(args []string) int {
 	fs := flag.NewFlagSet("lock", flag.ExitOnError)
 	prop := fs.String("property", "", "property id (comma separated; empty = all claimed in MANIFEST)")
 	runs := fs.Int("runs", 3, "number of seeds")
+	markers := fs.Bool("markers", false, "only recompute the CLAUSE: markers of the existing lock (no solving)")
 	fs.Parse(args)
 	var props []string
 	if *prop != "" {
@@ -647,12 +717,61 @@ func cmdLock(args []string) int {
 	lock := readLock()
 	os.Setenv("GOVC_BUDGET_MS", "6000")
 	os.Setenv("GOVC_ALL", "1")
+	if *markers {
+		os.Setenv("GOVC_NOSOLVE", "1")
+		for _, p := range props {
+			run := runProperty(eng, p, "quick", 1, 0)
+			isLockedName := map[string]bool{}
+			var names []string
+			for _, n := range lock[p] {
+				if !strings.HasPrefix(n, "CLAUSE:") {
+					names = append(names, n)
+					isLockedName[n] = true
+				}
+			}
+			all := map[string]bool{}
+			for _, it := range run.Items {
+				if !it.contract || it.Kind == "cover" {
+					continue
+				}
+				base := it.Name
+				if i := strings.LastIndex(it.Name, "#"); i > 0 {
+					base = it.Name[:i]
+				}
+				if _, seen := all[base]; !seen {
+					all[base] = true
+				}
+				if !isLockedName[it.Name] {
+					all[base] = false
+				}
+			}
+			nm := 0
+			for base, ok := range all {
+				if ok {
+					names = append(names, "CLAUSE:"+base)
+					nm++
+				}
+			}
+			sort.Strings(names)
+			lock[p] = names
+			fmt.Printf("%s: %d clause markers over %d locked obligations\n", p, nm, len(names)-nm)
+		}
+		if err := writeLock(lock); err != nil {
+			fmt.Println(err)
+			return 2
+		}
+		return 0
+	}
 	for _, p := range props {
 		count := map[string]int{}
 		slow := map[string]bool{}
+		generated := map[string]bool{} // every contract-kind obligation generated, discharged or not
 		for s := 0; s < *runs; s++ {
 			run := runProperty(eng, p, "quick", s*7+1, 0)
 			for _, it := range run.Items {
+				if it.contract && it.Kind != "cover" {
+					generated[it.Name] = true
+				}
 				if it.Status == "discharged" && it.Kind != "cover" {
 					count[it.Name]++
 					limit := 1.0
@@ -676,7 +795,42 @@ func cmdLock(args []string) int {
 				fmt.Printf("not locked (unstable or slow): %s (%d/%d, slow=%v)\n", n, c, *runs, slow[n])
 			}
 		}
+		// clause markers: every generated instance of the clause is locked
+		{
+			isLockedName := map[string]bool{}
+			for _, n := range names {
+				isLockedName[n] = true
+			}
+			all := map[string]bool{}
+			for n := range generated {
+				base := n
+				if i := strings.LastIndex(n, "#"); i > 0 {
+					base = n[:i]
+				}
+				if _, seen := all[base]; !seen {
+					all[base] = true
+				}
+				if !isLockedName[n] {
+					all[base] = false
+				}
+			}
+			for base, ok := range all {
+				if ok {
+					names = append(names, "CLAUSE:"+base)
+				}
+			}
+		}
 		sort.Strings(names)
+		// never weaken silently: name every contract clause that was locked and is not any more
+		now := map[string]bool{}
+		for _, n := range names {
+			now[n] = true
+		}
+		for _, n := range lock[p] {
+			if !now[n] && lockedContractName(n) {
+				fmt.Printf("DROPPED from lock (was locked, no longer discharges stably): %s\n", n)
+			}
+		}
 		lock[p] = names
 		fmt.Printf("%s: locked %d obligations\n", p, len(names))
 	}
@@ -685,6 +839,17 @@ func cmdLock(args []string) int {
 		return 2
 	}
 	return 0
+}
+
+// lockedContractName reports whether a lock entry names a contract clause
+// (ensures, invariant, assert-at, frame ...) rather than a safety obligation.
+func lockedContractName(n string) bool {
+	for _, p := range strings.Split(n, "/") {
+		if contractKind(p) {
+			return true
+		}
+	}
+	return false
 }
 
 func manifestProps() []string {
@@ -706,4 +871,22 @@ func manifestProps() []string {
 }
 
 // propertyAssumptions: clause-level non-applicability and meta-arguments per property.
-var propertyAssumptions = map[string][]string{}
+var propertyAssumptions = map[string][]string{
+	"C03": {
+		"input invariant lvalOK of every builtin argument (what the constructors of package lisp establish) is assumed at the LBuiltin boundary, not proved preserved",
+		"the argument list header of a builtin is built per call and unsealed (perCallArgs)",
+		"not decided by contracts: termination, stack exhaustion, parser/lexer, cycle guards",
+	},
+	"C07": {"only the gensym clause is decided; macro-expansion equivalence and quasiquote are not"},
+	"C08": {"use-package, get/Put/Update and scope lookup are decided; in-package defaults and qualified resolution inside eval are not"},
+	"C09": {
+		"LBuiltin type contract `keeps LVal.sealed` is an ASSUMPTION for host builtins and for the in-repo table entries whose keeps obligations are listed as undecided",
+		"typeinv LVal sealedKinds (a sealed node is of a kind the parser produces) is assumed for every value read; justified by the proved clauses of sealAST/InheritSeal and the immutable LVal.sealed/Type frames",
+		"race freedom follows by the ownership argument of DESIGN 3(6), not machine-checked",
+	},
+	"C11": {"sorted-map contents (host-replaceable Map interface) and the appendBytes callback arms of append-bytes/append-bytes! are not under contract"},
+	"C13": {"encoding/json and strconv are trusted dependencies; only the :exact-integers number decoding, key comparator and order-independent object errors are decided"},
+	"C14": {"floats are uninterpreted except Go's comparison semantics on compared pairs; s:in, s:regexp and iteration order inside composite validators are not under contract"},
+	"C17": {"only the renaming filter and the name-collision obligation are decided; semantic preservation of the minified program is not"},
+	"C18": {"only the location of limit errors and env.loc restoration are decided; stack-trace contents are not"},
+}
